@@ -87,9 +87,26 @@ def run_pos(case, res):
         return res
     got_extra = []
     cb = (lambda b: got_extra.append(b)) if case["callback"] else None
-    inp = PosIn(extra + report + trailing, case.get("errors", []), case["encoding"])
+    nested_first = bool(case.get("nested_first"))
+    nested_report = "\x1b[7;9R" if nested_first else ""
+    inp = PosIn(nested_report + extra + report + trailing, [e_ + len(nested_report) for e_ in case.get("errors", [])] if nested_first else case.get("errors", []), case["encoding"])
     out = PosOut()
     win = CursorAwareWindow(out_stream=out, in_stream=inp, extra_bytes_callback=cb)
+    nested_ret = []
+    if nested_first:
+        # a SIGWINCH handler calls get_cursor_vertical_diff just as the query starts: it asks the terminal itself and gets
+        # the first report; the interrupted call then reads its own
+        res.label("nested_query_at_start_of_position_query")
+        win.top_usable_row = 2  # what __enter__ would have recorded (the window is used without a tty here)
+        orig_read = inp.read
+
+        def read_with_handler(n=1):
+            if not nested_ret:
+                nested_ret.append(None)
+                nested_ret[0] = win.get_cursor_vertical_diff()
+            return orig_read(n)
+
+        inp.read = read_with_handler
     if extra and (("\x1b" in extra) or any(ch.isdigit() for ch in extra)):
         res.nontrivial = True
         res.label("extra_with_esc_or_digits")
@@ -126,7 +143,9 @@ def run_pos(case, res):
             res.viol("callback_called_without_extra", **ctx)
     if inp.content[inp.pos :] != trailing:
         res.viol("consumed_wrong_amount", unread=inp.content[inp.pos :], expected_unread=trailing, **ctx)
-    if out.data.count("\x1b[6n") != 1 or out.data.replace("\x1b[6n", ""):
+    if nested_first and nested_ret[:1] != [0]:
+        res.viol("nested_vertical_diff_query_disturbed", returned=repr(nested_ret), **ctx)
+    if out.data.count("\x1b[6n") != (2 if nested_first else 1) or out.data.replace("\x1b[6n", ""):
         res.viol("query_written_wrong", written=out.data[:60], **ctx)
     return res
 
@@ -282,15 +301,17 @@ def strategy():
             "errors": st.lists(st.integers(0, 30), max_size=3, unique=True),
             "callback": st.sampled_from([True, True, False]),
             "encoding": st.sampled_from(["utf-8", "latin-1"]),
+            "nested_first": st.sampled_from([False, False, False, True]),
         }
     )
+    at = st.one_of(st.integers(0, 8), st.integers(0, 24))
     during = st.lists(
         st.one_of(
-            st.fixed_dictionaries({"at": st.integers(0, 8), "d": st.integers(-5, 5)}),
-            st.fixed_dictionaries({"at": st.integers(0, 8), "nested": st.just(True)}),
-            st.fixed_dictionaries({"at": st.integers(0, 8), "nested": st.just(True), "d": st.integers(-5, 5)}),
+            st.fixed_dictionaries({"at": at, "d": st.integers(-5, 5)}),
+            st.fixed_dictionaries({"at": at, "nested": st.just(True)}),
+            st.fixed_dictionaries({"at": at, "nested": st.just(True), "d": st.integers(-5, 5)}),
         ),
-        max_size=2,
+        max_size=4,
     )
     step = st.one_of(
         st.fixed_dictionaries({"op": st.just("render"), "n": st.one_of(st.integers(0, 5), st.integers(0, 45)), "cursor_row": st.one_of(st.integers(0, 4), st.integers(0, 44))}),
